@@ -1,6 +1,7 @@
 import HypatiaModel.SetOps
 import HypatiaModel.Spec.SetOpsSpec
 import HypatiaModel.Spec.NBestSpec
+import HypatiaModel.Bisect
 import Driver.Sess
 /-!
 Sessions `setops` (mass_weightedUnion / mass_weightedIntersection) and `setopsnbest` (NBest).
@@ -136,6 +137,15 @@ def stepN (st : NSt) (toks : List String) : NSt × String :=
     match st.s with
     | some s => (st, s!"{s.cap}")
     | none => (st, "bad-op")
+  | "bisect" :: x :: rest =>
+    -- `bisect.bisect_left(scores, x)` (the binary search of Lib/bisect.py, `c17_bisect_left`); on an ascending
+    -- list the specification's answer is the number of entries `< x`
+    match x.toInt?, intList? rest with
+    | some x, some a =>
+      let asc := (a.zip a.tail).all (fun p => decide (p.1 ≤ p.2))
+      let m := NBest.bisectLeft a x 0 a.length
+      (st, if asc then s!"{m} ## {(a.filter (fun s => decide (s < x))).length}" else s!"{m}")
+    | _, _ => (st, "bad-op")
   | _ => (st, "bad-op")
 
 def sessNBest : Sess := { σ := NSt, st := {}, step := stepN }
